@@ -110,7 +110,7 @@ ROUND5 = {
     "C10": "; step ; a target disabled ; Broyden step, judged on linear problems against the same problem in which the target was never active",
     "C11": "; one destination manager used twice (rebound copy, then plain copy / load); int keys beyond 64 bits; an element and the container holding it both defined x destination pre-definitions x overwrite",
     "C12": "; a manager pickled in one interpreter and restored in others under other hash seeds; the default container used attribute-style; the same pickle loaded a second time (the second copy gets an assignment of its own); gen_fun in the alphabets; sibling chains to depth 4/5 with direct agreement of copy and original also where the model leaves the order open",
-    "C13": "; builtins and math.floor in triggered expressions; the generated function called again with equal arguments after an argument location was changed by another route; definitions differing only in literals of equal hash",
+    "C13": "; builtins and math.floor in triggered expressions; the generated function called again with equal arguments after an argument location was changed by another route; definitions differing only in literals of equal hash; argument values equal to but not the same as the stored ones",
     "C14": "; row selections with several selectors at once; Table.concatenate on tables whose index column is not called 'name'; a column whose name contains the index column's name",
     "C16": "; singular values tiny / huge in absolute terms; solve ; knobs moved by hand ; solve; rescale_x mappings at points outside the limits; Jacobian ; disable a knob ; Jacobian on one view",
     "C17": "; definitions whose expression reads no location (constant call, arithmetic on explicit literals)",
